@@ -153,21 +153,39 @@ theorem hasMgr_of_ms (h : Inv ps pend w) (hs : w.ms ≠ .WAITING) : w.hasMgr = t
   · rfl
 
 /-- the world `_stop_using_connection` leaves (when cancelling the timer does not raise) -/
-abbrev lostWorld (w : World) : World :=
-  { w with tt := w.tt.map fun _ => TrafficTimer.State.no_connection, timer := .none, conn := none }
+abbrev lostWorld (w : World) (op : Bool) (ps : List Prod) : World :=
+  { w with tt := w.tt.map fun _ => TrafficTimer.State.no_connection, timer := .none, conn := none,
+           outPaused := op, prods := ps }
 
+/-- with a timer handle that is safe to cancel and a running Cooperator, `_stop_using_connection`
+    raises nothing: the connection is forgotten, the producers are paused, the machine is told -/
 theorem connectionLost_eq (w : World) (ht : TimerOk w) :
-    connectionLost w = (if w.conn.isNone then (lostWorld w, some .attribute) else
-      if w.role = some true then mInput .connection_lost_leader "" 0 (lostWorld w)
-      else mInput .connection_lost_follower "" 0 (lostWorld w)) := by
+    ∃ op prs, connectionLost w = (if w.conn.isNone then (lostWorld w w.outPaused w.prods, some .attribute) else
+      if w.role = some true then mInput .connection_lost_leader "" 0 (lostWorld w op prs)
+      else mInput .connection_lost_follower "" 0 (lostWorld w op prs)) := by
   unfold connectionLost
   dsimp only
   rw [cancelTimer_ok _ _ stopUsingSafe (by exact ht)]
-  rfl
+  simp only [andThen]
+  by_cases hc : w.conn.isNone = true
+  · exact ⟨w.outPaused, w.prods, by simp only [hc, ↓reduceIte]⟩
+  · simp only [hc, Bool.false_eq_true, ↓reduceIte]
+    generalize hW : ({ w with tt := w.tt.map fun _ => TrafficTimer.State.no_connection, timer := Timer.none, conn := none } : World) = W
+    have hcs : W.coopStopped = false := by rw [← hW]; exact ht.coopRunning
+    obtain ⟨op, prs, e⟩ := pauseAll_same W
+    refine ⟨op, prs, ?_⟩
+    have hok := pauseAll_ok W hcs
+    rcases hp : pauseAll W with ⟨x, er⟩
+    rw [hp] at e hok
+    simp only at e hok
+    subst hok
+    subst e
+    rw [← hW]
 
 /-- the `manager.connector_connection_lost()` callback runs -/
 theorem connectionLost_inv (h : Inv ps (Thunk.mgrLost :: pend) w) (ht : TimerOk w) : Inv ps pend (connectionLost w).1 := by
-  rw [connectionLost_eq w ht]
+  obtain ⟨op, prs, heq⟩ := connectionLost_eq w ht
+  rw [heq]
   simp only [lostWorld]
   cases hc : w.conn with
   | none =>
@@ -222,7 +240,7 @@ theorem connectionLost_inv (h : Inv ps (Thunk.mgrLost :: pend) w) (ht : TimerOk 
           have := (h.ctorB g hg).2
           simp [core, hms] at this
         show InvC ps pend (core _)
-        rw [reconTail_core { w with tt := w.tt.map fun _ => TrafficTimer.State.no_connection, timer := .none, conn := none, ms := .CONNECTING } hr hk]
+        rw [reconTail_core { w with tt := w.tt.map fun _ => TrafficTimer.State.no_connection, timer := .none, conn := none, outPaused := op, prods := prs, ms := .CONNECTING } hr hk]
         exact hdrop (InvC.toConnecting (k := core w) h hm (by simp [core, hms]) (by simp [core, hms]) w.role hr h.roleVal hk
           w.ctors hnc w.conns none) (by simp [inConn, core])
       · -- CONNECTED → LONELY
